@@ -9,8 +9,9 @@ General facts of the engine model, local to `_run_oneof` (every program, every s
   one sub-DAG task for it, and either waits for it, or takes its value (`C10_first_success_wins`), or — only
   if that sub-DAG has a recorded failure — goes on to `rest` (`C10_next_only_after_failure`);
   nothing of `rest` is opened or started before that (`C10_waits_for_current_candidate`);
-* a candidate that is never opened is invisible in every reduced DAG (`C10_unopened_candidate_invisible`), so
-  later candidates and the nodes only they need are not launched by anybody;
+* the edge from a candidate to its one-of head is not part of any reduced DAG (`C10_candidate_edge_not_in_reduced_dags`),
+  so later candidates and the nodes only they need are not launched by anybody — unless they are ordinary dependencies
+  of a needed node too;
 * when every candidate failed: nested → the head gets `OneOfDoesNotHaveResultError` as its (contained)
   result and the enclosing scope is notified; top level → `run()` is woken and the one-of task fails with it
   (`C10_all_failed`).
@@ -82,10 +83,16 @@ theorem C10_all_failed (c : Ctx) (d : DagRef) (head : Node) (below : List Frame)
       else raiseOut c (notify s .run) obs below (.exc ⟨"OneOfNoResult", head, 0, 0⟩) := by
   simp [oneofTry]
 
-/-- a one-of candidate nobody has opened in this run is not a node of any reduced DAG -/
-theorem C10_unopened_candidate_invisible (P : Program) (s : St) (u : Node)
-    (hc : (P.g.attr u).isOneofChild = true) (ho : s.opened u = false) : (filteredView P s).okNode u = false := by
-  simp [filteredView, hc, ho]
+/-- the edge from a candidate to its one-of head is not an edge of any reduced DAG: a candidate (and what only it needs)
+is part of somebody else's sub-DAG only where it is an ordinary dependency too — and there it has to be computed,
+whether its one-of tries it or not (fix: candidates are no longer hidden as nodes, which left such a consumer waiting
+forever) -/
+theorem C10_candidate_edge_not_in_reduced_dags (P : Program) (s : St) (e : Edge)
+    (h : (P.g.attr e.v).oneofNodes.contains e.u = true) : (filteredView P s).okEdge e = false := by
+  simp only [filteredView, h, Bool.not_true, Bool.and_false]
+
+/-- every node is visible in the view the reduced DAGs are computed from -/
+theorem C10_no_node_is_hidden (P : Program) (s : St) (u : Node) : (filteredView P s).okNode u = true := rfl
 
 /-- opening is per run: the initial state of every run has nothing opened (fix: no write to the shared DAG) -/
 theorem C10_fresh_run_nothing_opened (u : Node) : init.opened u = false := rfl
